@@ -188,6 +188,14 @@ def install(w):
             },
             props=["C03", "C04", "C05", "C06", "C07", "C09", "C13"],
             private=["C09."],
+            split_on=[
+                "keycmd(transformed) in ('INSERT', 'UPDATE', 'DELETE')",
+                "keycmd(transformed) in ('TRANSACTION', 'COMMIT', 'ROLLBACK', 'TRUNCATETABLE')",
+                "keycmd(transformed) in ('DESCRIBE TABLE', 'DESCRIBE VIEW')",
+                "keycmd(transformed).startswith('DROP')",
+                "keycmd(transformed).startswith('CREATE')",
+                "keycmd(transformed).startswith('ALTER')",
+            ],
             focus=[{"label": "bookkeeping", "assume": "bool(arg(transformed, 'table_comment')) or bool(arg(transformed, 'text_lengths'))", "only": ["C09."]}],
         )
     )
